@@ -140,6 +140,10 @@ class Corpus(object):
                 lr = lr + [("Perturb", pr)]
             out.append(("r%d" % k, b, l, rr, {"source": "random", "script": {"local": ll, "remote": lr},
                                                "abstract": {"base": ab, "local": al, "remote": ar}}))
+        # concurrent edits inside the outputs of one cell (about a fifth of the random budget)
+        for k, (b, l, rr, label) in enumerate(concretize.output_scenarios(r, max(0, n_random // 5))):
+            out.append(("o%d" % k, b, l, rr, {"source": "output-scenario", "script": label,
+                                               "abstract": {"scenario": label, "k": k, "cells": len(b.cells)}}))
         self.chk.notes["corpus"]["discarded_invalid"] = self.discarded
         return out
 
